@@ -502,11 +502,14 @@ func (l *PartitionLog) Read(ctx context.Context, offset int64, maxBytes int32) (
 		// Hold l.mu across both fallbacks so an in-flight flush cannot move
 		// batches from the buffer into flushingBatches (or commit a segment)
 		// between the two checks.
-		body := l.buffer.RecordsFrom(offset, maxBytes)
-		fromFlushWindow := false
-		if len(body) == 0 {
-			body = recordsFromBatches(l.flushingBatches, offset, maxBytes)
-			fromFlushWindow = len(body) > 0
+		//
+		// The in-flight batches precede everything in the buffer, so they are
+		// consulted first: the buffer matches any offset at or below its own
+		// batches and would otherwise skip the in-flight batch holding offset.
+		body := recordsFromBatches(l.flushingBatches, offset, maxBytes)
+		fromFlushWindow := len(body) > 0
+		if !fromFlushWindow {
+			body = l.buffer.RecordsFrom(offset, maxBytes)
 		}
 		l.mu.Unlock()
 		if len(body) > 0 {
